@@ -186,3 +186,11 @@ package internal_planner
 //@   ensures eq: a.Op == "==" ==> (result <==> e.Value == a.Val)
 //@   ensures ne: a.Op == "!=" ==> (result <==> e.Value != a.Val)
 //@   ensures unknown: a.Op != ">" && a.Op != ">=" && a.Op != "<" && a.Op != "<=" && a.Op != "==" && a.Op != "!=" ==> !result
+
+// The in-process pipeline stages (json / logfmt / line_format / unwrap / limit ...)
+// run in their own goroutine: a run-time panic in a stage ends the whole reader
+// unless the goroutine defers the recover wrapper DIRECTLY (recover() has no
+// effect when it is called one frame deeper, from a closure that was deferred).
+//@ func (*GenericPlanner).WrapProcess$1 [C12]
+//@   flag defers-first=shared.TamePanic
+//@   flag may-panic
